@@ -7,7 +7,7 @@ from batches import core
 TRUSTED = list(core.TRUSTED) + [
     'axiom_uso_key', 'axiom_uso_ord',
     'std::collections::HashMap::<K1, V, S, A>::get_mut', 'SliceOf::<T>::sort_unstable',
-    'has_attr',
+    'has_attr', 'next', 'is_in_bounds', 'to_unit_section_offset', 'locations_offset', 'locations',
 ]
 
 CONVERT = r'^pub\(crate\) mod convert \{'
@@ -295,8 +295,6 @@ use crate::constants;
 use crate::read::{self, Reader, ReaderOffset};"""
     sk.add('fspec', tag_specs(ctx), label='tag_table')
     st = wu.item(r"^    pub struct FilterUnitEntry<'a, R: Reader<Offset = usize>>", within=CONVERT, label='FilterUnitEntry(struct)')
-    # R-FIELDS: `read::UnitRef` is a (&Dwarf, &Unit) pair -- all of gimli's section types -- and is not touched by has_die_back_edge
-    st.custom('R-FIELDS', "pub read_unit: read::UnitRef<'a, R>,", "pub read_unit: core::marker::PhantomData<&'a R>,")
     st.clean()
     st.prepend('#[verifier::reject_recursive_types(R)]')     # R-REJREC (lib's rejrec only handles unindented items)
     ctx.count('R-REJREC')
@@ -319,10 +317,410 @@ use crate::read::{self, Reader, ReaderOffset};"""
     sk.add(M, imp)
 
 
+# ------------------------------------------------------------------------------------------------ part 3: reference tables
+# Which variants of read::Operation / read::AttributeValue name a debugging information entry (DWARF 5 2.5.1, 7.5.5 and
+# the GNU extensions gimli decodes) -- written from the standard, NOT from the `match`es in add_*_refs.
+#   kind 'unit'  : a UnitOffset, relative to the unit of the expression (edge iff the offset is in the unit's bounds)
+#   kind 'info'  : a DebugInfoOffset (section offset)
+#   kind 'nested': a nested expression whose own operations must be walked
+OP_REFS = [
+    ('Deref', 'Operation::Deref { base_type: x, size: _, space: _ }', 'unit'),            # DW_OP_deref_type / xderef_type
+    ('RegisterOffset', 'Operation::RegisterOffset { register: _, offset: _, base_type: x }', 'unit'),   # DW_OP_regval_type
+    ('TypedLiteral', 'Operation::TypedLiteral { base_type: x, value: _ }', 'unit'),       # DW_OP_const_type
+    ('Convert', 'Operation::Convert { base_type: x }', 'unit'),                           # DW_OP_convert
+    ('Reinterpret', 'Operation::Reinterpret { base_type: x }', 'unit'),                   # DW_OP_reinterpret
+    ('ParameterRef', 'Operation::ParameterRef { offset: x }', 'unit'),                    # DW_OP_GNU_parameter_ref
+    ('Call-unit', 'Operation::Call { offset: DieReference::UnitRef(x) }', 'unit'),        # DW_OP_call2 / call4
+    ('Call-info', 'Operation::Call { offset: DieReference::DebugInfoRef(x) }', 'info'),   # DW_OP_call_ref
+    ('ImplicitPointer', 'Operation::ImplicitPointer { value: x, byte_offset: _ }', 'info'),   # DW_OP_implicit_pointer
+    ('VariableValue', 'Operation::VariableValue { offset: x }', 'info'),                  # DW_OP_GNU_variable_value
+    ('EntryValue', 'Operation::EntryValue { expression: x }', 'nested'),                  # DW_OP_entry_value
+]
+# payload types (as written in the enum definitions) that can name an entry; used to check OP_REFS / ATTR_REFS against
+# the enum definitions read from source: a variant with such a payload that is in neither table is `Lost` (exit 2).
+OP_REF_FIELD = re.compile(r'\b(UnitOffset<Offset>|DebugInfoOffset<Offset>|DieReference<Offset>|expression: R)\b')
+ATTR_REFS = {          # variant -> how it contributes
+    'UnitRef': 'unit', 'DebugInfoRef': 'info', 'Exprloc': 'expr', 'LocationListsRef': 'loclist', 'DebugLocListsIndex': 'loclist-index'}
+ATTR_NOT_REFS = {      # payload could name an entry, but not one of this conversion (reason in the report)
+    'DebugInfoRefSup': 'entry of the supplementary object file, never part of this conversion',
+    'DebugTypesRef': 'type unit named by signature (no offset); passed through unchanged by the conversion; not decided'}
+ATTR_REF_FIELD = re.compile(r'\((UnitOffset<Offset>|DebugInfoOffset<Offset>|Expression<R>|LocationListsOffset<Offset>|DebugLocListsIndex<Offset>|DebugTypeSignature)\)')
+
+
+def enum_variants(item_text):
+    """[(name, payload text)] of the variants of an enum item (comment-stripped text)"""
+    b = body_open(item_text, re.search(r'\benum\b', item_text).start())
+    e = match_close(item_text, b)
+    out = []
+    for part in _split_top(item_text[b + 1:e]):
+        part = re.sub(r'#\[[^\]]*\]', '', part).strip()
+        m = re.match(r'(\w+)\s*(.*)$', part, re.S)
+        out.append((m.group(1), m.group(2)))
+    return out
+
+
+def check_tables(op_enum, attr_enum):
+    ops = dict(enum_variants(op_enum))
+    named = set(n.split('-')[0] for n, _, _ in OP_REFS)
+    for v, payload in ops.items():
+        if OP_REF_FIELD.search(payload) and v not in named:
+            raise Lost(f'read::Operation::{v} carries an entry reference ({one_line(payload)}) but is not classified in OP_REFS')
+    for v in named:
+        if v not in ops or not OP_REF_FIELD.search(ops[v]):
+            raise Lost(f'read::Operation::{v} (OP_REFS) no longer carries an entry reference')
+    attrs = dict(enum_variants(attr_enum))
+    for v, payload in attrs.items():
+        if ATTR_REF_FIELD.search(payload) and v not in ATTR_REFS and v not in ATTR_NOT_REFS:
+            raise Lost(f'read::AttributeValue::{v}{one_line(payload)} may reference an entry but is not classified in ATTR_REFS')
+    for v in list(ATTR_REFS) + list(ATTR_NOT_REFS):
+        if v not in attrs or not ATTR_REF_FIELD.search(attrs[v]):
+            raise Lost(f'read::AttributeValue::{v} (ATTR_REFS) no longer has a reference payload')
+
+
+def ident(v):
+    return v.replace('-', '_')
+
+
+def ref_specs():
+    """spec fns generated from OP_REFS (module crate::fspec)"""
+    out = ['''
+// ---- part 3: which entries an expression references (generated from OP_REFS in vx/batches/filter.py)
+pub type Hdr<R> = crate::read::UnitHeader<R, usize>;
+pub type Op<R> = crate::read::Operation<R, usize>;
+/// the operations `OperationIter` yields for the expression bytes `v` (up to the end or the first decode error)
+pub uninterp spec fn expr_ops<R: Reader<Offset = usize>>(v: RView, enc: Encoding) -> Seq<Op<R>>;
+/// the entries `LocListIter` yields for the location list at `offset` (up to the end of the list)
+pub uninterp spec fn loclist_entries<R: Reader<Offset = usize>>(dwarf: &crate::read::Dwarf<R>, unit: &crate::read::Unit<R>, offset: LocationListsOffset<usize>) -> Seq<crate::read::LocationListEntry<R>>;
+pub uninterp spec fn loclists_offset_spec<R: Reader<Offset = usize>>(dwarf: &crate::read::Dwarf<R>, unit: &crate::read::Unit<R>, index: DebugLocListsIndex<usize>) -> LocationListsOffset<usize>;
+/// section offset of the entry at unit offset `o`
+pub open spec fn uso_unit<R: Reader<Offset = usize>>(h: Hdr<R>, o: crate::read::UnitOffset<usize>) -> K { UnitSectionOffset((h.spec_offset().0 + o.0) as usize) }
+pub broadcast proof fn lemma_push_contains_b(v: Seq<K>, x: K, k: K)
+    ensures #[trigger] v.push(x).contains(k) <==> (v.contains(k) || k == x)
+{ lemma_push_contains(v, x); }
+''']
+    direct = []
+    for v, pat, kind in OP_REFS:
+        n = ident(v)
+        if kind == 'unit':
+            body = f'(op matches {pat} && h.in_bounds_spec(x)) ==> deps.contains(uso_unit(h, x))'
+            tgt = f'(op matches {pat} && h.in_bounds_spec(x) && t == uso_unit(h, x))'
+        elif kind == 'info':
+            body = f'(op matches {pat}) ==> deps.contains(UnitSectionOffset(x.0))'
+            tgt = f'(op matches {pat} && t == UnitSectionOffset(x.0))'
+        else:
+            continue
+        direct.append((n, tgt))
+        out.append(f'''pub open spec fn cov1_{n}<R: Reader<Offset = usize>>(h: Hdr<R>, op: Op<R>, deps: Seq<K>) -> bool {{ {body} }}
+pub open spec fn covers_{n}<R: Reader<Offset = usize>>(h: Hdr<R>, ops: Seq<Op<R>>, deps: Seq<K>) -> bool {{
+    forall|i: int| 0 <= i < ops.len() ==> cov1_{n}(h, #[trigger] ops[i], deps)
+}}''')
+    conj = ' && '.join(f'covers_{n}(h, ops, deps)' for n, _ in direct)
+    out.append(f'''/// every direct entry reference of `ops` is in deps
+pub open spec fn covers_direct<R: Reader<Offset = usize>>(h: Hdr<R>, ops: Seq<Op<R>>, deps: Seq<K>) -> bool {{ {conj} }}
+/// `t` is the entry directly referenced by `op`
+pub open spec fn direct_target<R: Reader<Offset = usize>>(h: Hdr<R>, op: Op<R>, t: K) -> bool {{
+    {' || '.join(t for _, t in direct)}
+}}
+pub open spec fn cov1_EntryValue<R: Reader<Offset = usize>>(h: Hdr<R>, enc: Encoding, op: Op<R>, deps: Seq<K>) -> bool {{
+    (op matches Operation::EntryValue {{ expression: x }}) ==> covers_direct(h, expr_ops::<R>(x.rv(), enc), deps)
+}}
+/// the operations of every nested DW_OP_entry_value expression are covered (one level; deeper levels follow from the callee contract of a recursive walk)
+pub open spec fn covers_EntryValue<R: Reader<Offset = usize>>(h: Hdr<R>, enc: Encoding, ops: Seq<Op<R>>, deps: Seq<K>) -> bool {{
+    forall|i: int| 0 <= i < ops.len() ==> cov1_EntryValue(h, enc, #[trigger] ops[i], deps)
+}}
+/// all of the above for one expression
+pub open spec fn covers_expr<R: Reader<Offset = usize>>(h: Hdr<R>, enc: Encoding, v: RView, deps: Seq<K>) -> bool {{
+    covers_direct(h, expr_ops::<R>(v, enc), deps) && covers_EntryValue(h, enc, expr_ops::<R>(v, enc), deps)
+}}
+pub open spec fn covers_loclist<R: Reader<Offset = usize>>(h: Hdr<R>, enc: Encoding, l: Seq<crate::read::LocationListEntry<R>>, deps: Seq<K>) -> bool {{
+    forall|i: int| 0 <= i < l.len() ==> covers_expr::<R>(h, enc, (#[trigger] l[i]).data.0.rv(), deps)
+}}
+pub proof fn lemma_covers_mono<R: Reader<Offset = usize>>(h: Hdr<R>, enc: Encoding, v: RView, a: Seq<K>, b: Seq<K>)
+    requires covers_expr::<R>(h, enc, v, a), a.is_prefix_of(b),
+    ensures covers_expr::<R>(h, enc, v, b),
+{{
+    assert forall|k: K| a.contains(k) implies b.contains(k) by {{ let i = choose|i: int| 0 <= i < a.len() && a[i] == k; assert(b[i] == k); }}
+    let ops = expr_ops::<R>(v, enc);
+    assert forall|i: int| 0 <= i < ops.len() implies cov1_EntryValue(h, enc, #[trigger] ops[i], b) by {{
+        assert(cov1_EntryValue(h, enc, ops[i], a));
+    }}
+}}''')
+    return '\n'.join(out)
+
+
+DWARF_MODEL = '''
+// ---- MODEL (not gimli text): `read::Dwarf` is a record of all section readers; the filter only calls the two methods
+// below on it.  Their results are tied to uninterpreted ghost functions (what the sections contain is not modelled).
+#[derive(Debug)]
+pub struct Dwarf<R: Reader> { pub model_only: core::marker::PhantomData<R> }
+impl<R: Reader<Offset = usize>> Dwarf<R> {
+    #[verifier::external_body]
+    pub fn locations_offset(&self, unit: &Unit<R>, index: DebugLocListsIndex<R::Offset>) -> (res: Result<LocationListsOffset<R::Offset>>)
+        ensures res matches Ok(o) ==> o == loclists_offset_spec(self, unit, index)
+    { unimplemented!() }
+    #[verifier::external_body]
+    pub fn locations(&self, unit: &Unit<R>, offset: LocationListsOffset<R::Offset>) -> (res: Result<LocListIter<R>>)
+        ensures res matches Ok(it) ==> it.entries() == loclist_entries(self, unit, offset)
+    { unimplemented!() }
+}
+'''
+
+LOCLIST_MODEL = '''
+// ---- MODEL (not gimli text): `LocListIter` (raw iterator + .debug_addr + base address); `next` yields the ghost entry
+// sequence one by one; Ok(None) only at its end.
+#[derive(Debug)]
+pub struct LocListIter<R: Reader> { pub model_only: core::marker::PhantomData<R> }
+impl<R: Reader<Offset = usize>> LocListIter<R> {
+    pub uninterp spec fn entries(&self) -> Seq<LocationListEntry<R>>;
+    #[verifier::external_body]
+    pub fn next(&mut self) -> (res: Result<Option<LocationListEntry<R>>>)
+        ensures
+            res matches Ok(Some(e)) ==> old(self).entries().len() > 0 && e == old(self).entries()[0] && final(self).entries() == old(self).entries().skip(1),
+            res matches Ok(None) ==> old(self).entries().len() == 0,
+    { unimplemented!() }
+}
+'''
+
+
+def populate_refs(ctx, sk):
+    """part 3: FilterUnit::{add_attribute_refs, add_expression_refs, add_location_refs, require_entry}"""
+    wu = Source('write/unit.rs', ctx)
+    wm = Source('write/mod.rs', ctx)
+    op = Source('read/op.rs', ctx)
+    ru = Source('read/unit.rs', ctx)
+    rdw = Source('read/dwarf.rs', ctx)
+    rll = Source('read/loclists.rs', ctx)
+    rrl = Source('read/rnglists.rs', ctx)
+    M = 'write::unit::convert'
+    check_tables(op.item(r'^pub enum Operation<R, Offset').text, ru.item(r'^pub enum AttributeValue<R, Offset').text)
+    sk.mods['fspec']['uses'] += '''
+use crate::common::*;
+use crate::read::{Reader, Operation, DieReference};
+use crate::vspec::RView;'''
+    sk.add('fspec', ref_specs(), label='ref_tables')
+
+    # ---- read::op: Expression::operations (real), OperationIter (real struct; `next` contract-only)
+    sk.mods['read::op']['uses'] += '\nuse crate::fspec::*;'
+    ex = op.item(r'^impl<R: Reader> Expression<R> \{', label='Expression')
+    ex.keep_only(['operations'])
+    ex.clean().own(['C19'])
+    ex.splice('operations', ret='res', ensures=['res.ops() == expr_ops::<R>(self.0.rv(), encoding)'])
+    sk.add('read::op', op.item(r'^pub struct OperationIter<R: Reader>', label='OperationIter(struct)').clean(rejrec=['R']))
+    oi = op.item(r'^impl<R: Reader> OperationIter<R> \{', label='OperationIter')
+    oi.keep_only(['next'])
+    # body = Operation::parse (verified in batch `op`, [C01:progress] makes the ghost sequence finite); here contract-only
+    oi.extbody(['next'])
+    oi.clean()
+    oi.insert_members('    pub closed spec fn ops(&self) -> Seq<Operation<R>> { expr_ops::<R>(self.input.rv(), self.encoding) }')
+    oi.splice('next', ret='res', ensures=[
+        'res matches Ok(Some(op)) ==> old(self).ops().len() > 0 && op == old(self).ops()[0] && final(self).ops() == old(self).ops().skip(1)',
+        '!(res matches Ok(Some(_))) ==> old(self).ops().len() == 0'])
+    sk.add('read::op', oi)
+    sk.add('read::op', ex)
+
+    # ---- read::unit: UnitType, UnitHeader (real), offset helpers
+    sk.mods['read::unit']['uses'] += '\nuse crate::fspec::*;'
+    sk.add('read::unit', ru.item(r'^pub enum UnitType<Offset>', label='UnitType').clean(rejrec=['Offset']))
+    sk.add('common', Source('common.rs', ctx).item(r'^pub enum SectionId').clean())
+    sk.add('read::unit', ru.item(r'^pub struct UnitHeader<R, Offset', label='UnitHeader(struct)').clean(rejrec=['R', 'Offset']))
+    uh = ru.item(r'^impl<R, Offset> UnitHeader<R, Offset>', label='UnitHeader', with_attrs=False)
+    uh.keep_only(['offset', 'encoding', 'is_in_bounds'])
+    # header_size()/entries_buf arithmetic belongs to the units batch; here the bound is an uninterpreted predicate
+    uh.extbody(['is_in_bounds'])
+    uh.clean()
+    uh.insert_members('''    pub closed spec fn spec_offset(&self) -> UnitSectionOffset<Offset> { self.unit_offset }
+    pub closed spec fn spec_section(&self) -> SectionId { self.section }
+    pub closed spec fn spec_encoding(&self) -> Encoding { self.encoding }
+    pub uninterp spec fn in_bounds_spec(&self, offset: UnitOffset<Offset>) -> bool;''')
+    uh.splice('offset', ret='res', ensures=['res == self.spec_offset()'])
+    uh.splice('encoding', ret='res', ensures=['res == self.spec_encoding()'])
+    uh.splice('is_in_bounds', ret='res', ensures=['res == self.in_bounds_spec(offset)'])
+    uh.own(['C19'])
+    sk.add('read::unit', uh)
+    dio = ru.item(r'^impl<T: ReaderOffset> DebugInfoOffset<T> \{', label='DebugInfoOffset')
+    dio.keep_only(['to_unit_section_offset'])
+    dio.extbody(['to_unit_section_offset'])      # `!=` on the derived PartialEq of SectionId has no Verus spec
+    dio.clean(offset=False)
+    dio.splice('to_unit_section_offset', ret='res', ensures=[
+        'res == (if unit.spec_section() == SectionId::DebugInfo { Some(UnitSectionOffset(self.0)) } else { None::<UnitSectionOffset<T>> })'])
+    sk.add('read::unit', dio)
+    uo = ru.item(r'^impl<T: ReaderOffset> UnitOffset<T> \{', label='UnitOffset')
+    uo.keep_only(['is_in_bounds', 'to_unit_section_offset'])
+    uo.extbody(['to_unit_section_offset'])       # `+` on the abstract `T: ReaderOffset` (Add trait) has no Verus spec
+    uo.clean(offset=False)
+    uo.own(['C19'])
+    uo.splice('is_in_bounds', ret='res', ensures=['res == unit.in_bounds_spec(*self)'])
+    uo.splice('to_unit_section_offset', ret='res',
+              requires=['[C19:uso-in-bounds] unit.in_bounds_spec(*self)'],
+              ensures=['res.0.as_nat() == unit.spec_offset().0.as_nat() + self.0.as_nat()'])
+    sk.add('read::unit', uo)
+
+    # ---- read::{rnglists, loclists, dwarf}
+    sk.mods['read']['uses'] += '\npub use self::rnglists::*;\npub use self::loclists::*;\npub use self::dwarf::*;'
+    sk.module('read::rnglists', '')
+    sk.add('read::rnglists', rrl.item(r'^pub struct Range \{', label='Range').clean())
+    sk.module('read::loclists', 'use crate::read::{Reader, Result, Expression, Range};')
+    sk.add('read::loclists', rll.item(r'^pub struct LocationListEntry<R: Reader>', label='LocationListEntry').clean(rejrec=['R']))
+    sk.add('read::loclists', LOCLIST_MODEL, label='LocListIter(model)')
+    sk.module('read::dwarf', '''use crate::common::*;
+use crate::read::{Reader, ReaderOffset, Result, UnitHeader, LocListIter, LocationListEntry};
+use crate::fspec::*;''')
+    sk.add('read::dwarf', DWARF_MODEL, label='Dwarf(model)')
+    un = rdw.item(r'^pub struct Unit<R, Offset', label='Unit(struct)')
+    # R-FIELDS: abbreviation table and line program header are outside the extracted subset and untouched by the filter code
+    un.custom('R-FIELDS', 'pub abbreviations: Arc<Abbreviations>,', '')
+    un.custom('R-FIELDS', 'pub line_program: Option<IncompleteLineProgram<R, Offset>>,', '')
+    sk.add('read::dwarf', un.clean(rejrec=['R', 'Offset']))
+    ud = rdw.item(r'^impl<R: Reader> core::ops::Deref for Unit<R>', label='Deref for Unit').clean()
+    ud.own(['C19']).splice('deref', ret='res', ensures=['*res == self.header'])
+    sk.add('read::dwarf', ud)
+    ui = rdw.item(r'^impl<R: Reader> Unit<R> \{', label='Unit')
+    ui.keep_only(['encoding'])
+    ui.clean().own(['C19'])
+    ui.splice('encoding', ret='res', ensures=['res == self.header.spec_encoding()'])
+    sk.add('read::dwarf', ui)
+    sk.add('read::dwarf', rdw.item(r"^pub struct UnitRef<'a, R: Reader>", label='UnitRef(struct)').clean(rejrec=['R']))
+    urd = rdw.item(r"^impl<'a, R: Reader> core::ops::Deref for UnitRef<'a, R>", label='Deref for UnitRef').clean()
+    urd.own(['C19']).splice('deref', ret='res', ensures=['*res == self.unit'])
+    sk.add('read::dwarf', urd)
+    uri = rdw.item(r"^impl<'a, R: Reader> UnitRef<'a, R> \{", label='UnitRef')
+    uri.keep_only(['locations_offset', 'locations'])
+    uri.clean().own(['C19'])
+    uri.splice('locations_offset', ret='res', ensures=['res matches Ok(o) ==> o == loclists_offset_spec(self.dwarf, self.unit, index)'])
+    uri.splice('locations', ret='res', ensures=['res matches Ok(it) ==> it.entries() == loclist_entries(self.dwarf, self.unit, offset)'])
+    sk.add('read::dwarf', uri)
+
+    # ---- write: Error, ConvertError, From<read::Error>
+    sk.mods['write']['uses'] += '\nuse core::result;\nuse crate::read;\npub use self::unit::*;'
+    sk.add('write', wm.item(r'^pub enum Error \{', label='Error').clean())
+    sk.add('write', wm.item(r'^    pub enum ConvertError \{', label='ConvertError').clean())
+    fr = wm.item(r'^    impl From<read::Error> for ConvertError', label='From<read::Error> for ConvertError').clean()
+    fr.own(['C19'])
+    sk.add('write', fr)
+    sk.add('write', '''impl vstd::std_specs::convert::FromSpecImpl<read::Error> for ConvertError {
+    open spec fn obeys_from_spec() -> bool { true }
+    open spec fn from_spec(e: read::Error) -> Self { ConvertError::Read(e) }
+}''', label='FromSpecImpl')
+    sk.add('write', wm.item(r'^    pub type ConvertResult<T>', label='ConvertResult').clean())
+    sk.mods['write::unit']['uses'] += '\npub use self::convert::*;'
+    sk.mods[M]['uses'] += '''
+use crate::common::{DebugInfoOffset, LocationListsOffset, DebugLocListsIndex, Encoding};
+use crate::write::{ConvertError, ConvertResult};
+use crate::read::reader_clone;
+broadcast use crate::fspec::lemma_push_contains_b;'''
+
+    sk.add(M, wu.item(r'^    struct FilterParent \{', within=CONVERT, label='FilterParent').clean())
+    fu = wu.item(r"^    pub struct FilterUnit<'a, R: Reader<Offset = usize>>", within=CONVERT, label='FilterUnit(struct)')
+    fu.custom('R-FIELDS', "entries: read::EntriesRaw<'a, R>,", '')    # DIE cursor: units batch; untouched by the extracted methods
+    fu.clean()
+    fu.prepend('#[verifier::reject_recursive_types(R)]')
+    ctx.count('R-REJREC')
+    sk.add(M, fu)
+    return wu
+
+
+def populate_filter_unit(ctx, sk, wu):
+    M = 'write::unit::convert'
+    imp = wu.item(r"^    impl<'a, R: Reader<Offset = usize>> FilterUnit<'a, R> \{", within=CONVERT, label='FilterUnit')
+    # not extracted: `new`/`read_entry` (DIE cursor, parent stack: not decided), `filter_attributes` (`retain` with a closure)
+    imp.drop(['new', 'null_entry', 'read_entry', 'filter_attributes'])
+    # R-CLONE: derived Clone of Expression<R> has no Verus spec; a clone of a reader has the same view (core: reader_clone)
+    imp.custom('R-CLONE', 'expression.clone()', 'read::Expression(reader_clone(&expression.0))')
+    imp.clean()
+    imp.own(['C19'])
+    H = 'self.read_unit.unit.header'
+    ENC = f'{H}.spec_encoding()'
+    OD, FD = 'old(deps)@', 'final(deps)@'
+    INFO = f'{H}.spec_section() == crate::common::SectionId::DebugInfo'
+    FRAME = [f'[C19:deps-extend] {OD}.is_prefix_of({FD})', 'final(self) == old(self)']
+    direct = [ident(v) for v, _, k in OP_REFS if k != 'nested']
+
+    # ---- add_expression_refs: one clause (and one loop invariant) per reference-bearing Operation variant
+    OPS0 = f'expr_ops::<R>(expression.0.rv(), {ENC})'
+    ens = [f'[C19:expr-ref-{v}] res is Ok ==> covers_{ident(v)}({H}, {OPS0}, {FD})' for v, _, k in OP_REFS if k != 'nested']
+    ens.append(f'[C19:expr-ref-EntryValue] res is Ok ==> covers_EntryValue({H}, {ENC}, {OPS0}, {FD})')
+    ens.append(f'[C19:expr-ref-only] forall|j: int| {OD}.len() <= j < {FD}.len() ==> exists|i: int| 0 <= i < {OPS0}.len() && direct_target({H}, #[trigger] {OPS0}[i], #[trigger] {FD}[j])')
+    ens.append(f'[C19:expr-info-section] res is Err ==> !({INFO})')
+    inv = ['invariant',
+           '    *self == *old(self), ops0 == ' + f'expr_ops::<R>(expression0.rv(), {ENC})' + ', h == ' + H + ',',
+           '    ops.ops().len() <= ops0.len(), ops.ops() == ops0.skip(ops0.len() - ops.ops().len()),',
+           f'    {OD}.is_prefix_of(deps@),']
+    for v, _, k in OP_REFS:
+        n = ident(v)
+        if k != 'nested':
+            inv.append(f'    forall|i: int| 0 <= i < ops0.len() - ops.ops().len() ==> cov1_{n}(h, #[trigger] ops0[i], deps@), // [C19:expr-ref-{v}]')
+        else:
+            inv.append(f'    forall|i: int| 0 <= i < ops0.len() - ops.ops().len() ==> cov1_{n}(h, {ENC}, #[trigger] ops0[i], deps@), // [C19:expr-ref-{v}]')
+    inv.append(f'    forall|j: int| {OD}.len() <= j < deps@.len() ==> exists|i: int| 0 <= i < ops0.len() - ops.ops().len() && direct_target(h, #[trigger] ops0[i], #[trigger] deps@[j]), // [C19:expr-ref-only]')
+    inv.append('decreases ops.ops().len(),')
+    STEP = '''let ghost dprev = deps@; let ghost k0 = ops0.len() - ops.ops().len() - 1;
+                proof { assert(ops0.skip(k0)[0] == ops0[k0]); assert(op == ops0[k0]); assert(ops0.skip(k0).skip(1) =~= ops0.skip(k0 + 1)); }'''
+    imp.splice('add_expression_refs', ret='res', ensures=ens + FRAME, loops={0: '\n'.join(inv)},
+               before=[('let mut ops = expression.operations', f'let ghost expression0 = expression.0; let ghost h = {H}; let ghost ops0 = {OPS0};'),
+                       ('match op {', STEP)])
+    insert_after_loop_body_end(imp, 'add_expression_refs', 0, '''proof {
+                    assert forall|j: int| ''' + OD + '''.len() <= j < deps@.len() implies exists|i: int| 0 <= i < k0 + 1 && direct_target(h, #[trigger] ops0[i], #[trigger] deps@[j]) by {
+                        if j < dprev.len() { assert(deps@[j] == dprev[j]); } else { assert(direct_target(h, ops0[k0], deps@[j])); }
+                    }
+                }''')
+
+    # ---- add_location_refs
+    L = f'loclist_entries(self.read_unit.dwarf, self.read_unit.unit, offset)'
+    imp.splice('add_location_refs', ret='res',
+               ensures=[f'[C19:loclist-refs] res is Ok ==> covers_loclist({H}, {ENC}, {L}, {FD})'] + FRAME,
+               loops={0: f'''invariant
+                *self == *old(self), l0 == {L},
+                locations.entries().len() <= l0.len(), locations.entries() == l0.skip(l0.len() - locations.entries().len()),
+                {OD}.is_prefix_of(deps@),
+                forall|i: int| 0 <= i < l0.len() - locations.entries().len() ==> covers_expr::<R>({H}, {ENC}, (#[trigger] l0[i]).data.0.rv(), deps@),
+            decreases locations.entries().len(),'''},
+               before=[('while let Some(location)', f'let ghost l0 = {L};'),
+                       ('self.add_expression_refs(deps, location.data)?;', '''let ghost dprev = deps@; let ghost k0 = l0.len() - locations.entries().len() - 1;
+                proof { assert(l0.skip(k0)[0] == l0[k0]); assert(location == l0[k0]); assert(l0.skip(k0).skip(1) =~= l0.skip(k0 + 1)); }''')],
+               after=[('self.add_expression_refs(deps, location.data)?;', f'''proof {{
+                    assert forall|i: int| 0 <= i < k0 implies covers_expr::<R>({H}, {ENC}, (#[trigger] l0[i]).data.0.rv(), deps@) by {{
+                        lemma_covers_mono::<R>({H}, {ENC}, l0[i].data.0.rv(), dprev, deps@);
+                    }}
+                }}''')])
+
+    # ---- add_attribute_refs: one clause per reference-bearing AttributeValue variant
+    imp.splice('add_attribute_refs', ret='res', ensures=[
+        f'[C19:attr-ref-UnitRef] (value matches read::AttributeValue::UnitRef(x) && {H}.in_bounds_spec(x)) ==> {FD}.contains(uso_unit({H}, x))',
+        f'[C19:attr-ref-DebugInfoRef] (value matches read::AttributeValue::DebugInfoRef(x) && res is Ok) ==> {FD}.contains(UnitSectionOffset(x.0))',
+        f'[C19:attr-ref-DebugInfoRef] (value matches read::AttributeValue::DebugInfoRef(x) && {INFO}) ==> res is Ok',
+        f'[C19:attr-ref-Exprloc] (value matches read::AttributeValue::Exprloc(x) && res is Ok) ==> covers_expr::<R>({H}, {ENC}, x.0.rv(), {FD})',
+        f'[C19:attr-ref-LocationListsRef] (value matches read::AttributeValue::LocationListsRef(x) && res is Ok) ==> covers_loclist({H}, {ENC}, loclist_entries(self.read_unit.dwarf, self.read_unit.unit, x), {FD})',
+        f'[C19:attr-ref-DebugLocListsIndex] (value matches read::AttributeValue::DebugLocListsIndex(x) && res is Ok) ==> covers_loclist({H}, {ENC}, loclist_entries(self.read_unit.dwarf, self.read_unit.unit, loclists_offset_spec(self.read_unit.dwarf, self.read_unit.unit, x)), {FD})',
+        f'[C19:attr-ref-only] !(value is UnitRef || value is DebugInfoRef || value is Exprloc || value is LocationListsRef || value is DebugLocListsIndex) ==> {FD} == {OD} && res is Ok',
+    ] + FRAME)
+
+    # ---- require_entry
+    imp.splice('require_entry',
+               requires=[f'[C19:require-in-bounds] old(self).read_unit.unit.header.in_bounds_spec(offset)'],
+               ensures=['[C19:require-entry] final(self).deps.req() == old(self).deps.req().push(uso_unit(old(self).read_unit.unit.header, offset))',
+                        '[C19:require-entry] final(self).deps.graph() == old(self).deps.graph()'], canary=True)
+    sk.add(M, imp)
+
+
+def insert_after_loop_body_end(item, fn, ordinal, ghost):
+    """ghost text at the END of the body of the `ordinal`-th loop of `fn` (just before its closing brace)"""
+    mark = '\x00LOOPEND\x00'
+    insert_after_loop(item, fn, ordinal, 'proof { }')
+    # move the (empty) insertion from after the brace to before it
+    probe = ins('\nproof { }\n')
+    i = item.text.index(probe)
+    assert item.text[i - 1] == '}'
+    check_ghost(ghost)
+    item.text = item.text[:i - 1] + ins('\n' + ghost + '\n') + '}' + item.text[i + len(probe):]
+    return item
+
+
 def populate(ctx, sk):
     populate_deps(ctx, sk)
     populate_read_types(ctx, sk)
+    wu = populate_refs(ctx, sk)
     populate_backedge(ctx, sk)
+    populate_filter_unit(ctx, sk, wu)
     return sk
 
 
